@@ -842,7 +842,7 @@ def check_C02(ctx):
     cluster_check(ctx, ["B_C02"], ["P_C03", "P_C04", "P_C02L"], invariants=["StatusTruth", "QuietPods"], properties=["Converges"], faults=0, fails=0, sim_claims=2)
     # the step argument of convergence on settled snapshots (nobody is waiting for any pod): a roll-out with work left
     # takes a pod down, whatever mix of revisions the pods are at (393 k points; enumerated in the thorough tier)
-    snap_trace(ctx, "pods-settled", "pods-settled", 2, 3, 5, 40000 if q else 0, ["P_C02L", "P_C03", "P_C04"], 40)
+    snap_trace(ctx, "pods-settled", "pods-settled", 2, 3, 5, 40000 if q else 0, ["P_C02L", "P_C02S", "P_C03", "P_C04"], 40)
     ctx.assumptions.append("liveness is established on the model under weak fairness (TLC, exhaustive for 2 ordinals) and, on the code, as "
                            "bounded convergence of a fair schedule from every replayed and random behaviour")
 
